@@ -2,6 +2,7 @@
 use crate::engine::{Plan, Tier};
 
 pub mod c01;
+pub mod c03;
 pub mod c04;
 pub mod c05;
 pub mod c06;
@@ -21,6 +22,7 @@ pub const ALL: &[&str] = &[
 pub fn plan(id: &str, tier: Tier) -> Option<Plan> {
     match id {
         "C01" => Some(c01::plan(tier)),
+        "C03" => Some(c03::plan(tier)),
         "C04" => Some(c04::plan(tier)),
         "C05" => Some(c05::plan(tier)),
         "C06" => Some(c06::plan(tier)),
